@@ -30,9 +30,9 @@ TimeOf(g) == LET r == {x \in rtime : x.g = g} IN IF r = {} THEN 0 ELSE (CHOOSE x
 Pos(g) == LET r == {n \in 1 .. Len(seen) : seen[n] = g} IN IF r = {} THEN 0 ELSE CHOOSE n \in r : TRUE
 OpenOf(i) == CHOOSE x \in open : x.i = i
 
-Call(i, kind, gids, delays, t) ==
+Call(i, kind, gids, delays, t, faulty) ==
    /\ ~\E x \in open : x.i = i
-   /\ open' = open \cup {[i |-> i, kind |-> kind, gids |-> gids, delays |-> delays, t |-> t]}
+   /\ open' = open \cup {[i |-> i, kind |-> kind, gids |-> gids, delays |-> delays, t |-> t, faulty |-> faulty]}
    /\ UNCHANGED <<seen, rtime, lastAtt, connected, closedAt, cbs, recon, devs, hadLoss, ncb, hsent, void>>
 
 DevRecv(g, t) == /\ seen' = Append(seen, g) /\ rtime' = rtime \cup {[g |-> g, t |-> t]}
@@ -71,6 +71,7 @@ RetFail(i, exc, t) ==
    LET c == OpenOf(i) IN
    /\ \E x \in open : x.i = i
    /\ exc = "comm"                                               \* a communication error, nothing else
+   /\ (c.faulty \/ closedAt > 0 \/ ~connected)                  \* a healthy, connected device is never reported as failing
    /\ IF SentTimes(c) = {} THEN (~connected \/ t <= c.t + Timeout + Period)   \* refused before anything was sent
       ELSE t <= LastSent(c) + Timeout + Period                          \* FailsInTime, counted from the last send
    /\ (closedAt > 0 /\ t >= closedAt) => ~connected              \* StateVisible once the loss was hit
